@@ -21,7 +21,7 @@ Definition run_tag (l : list tok) : list tok :=
 Definition run_spec (l obs : list tok) : list tok :=
   if is_periodic l
   then match obs with
-       | t :: _ => if is_tag "X" t then periodic_spec2 (trace_part l) else fail "terminate:crash_or_deadlock"
+       | t :: _ => if is_tag "X" t then periodic_spec2 (trace_part l) ++ periodic_spec_join (trace_part l) else fail "terminate:crash_or_deadlock"
        | [] => fail "obs:unparsable"
        end
   else
